@@ -19,6 +19,8 @@
 -/
 import Ctrmml.Proofs.VgmInv
 import Ctrmml.Proofs.Utf8
+import Ctrmml.Proofs.VgmTagErr
+import Ctrmml.Proofs.MdExport
 namespace Ctrmml.Vgm
 open Ctrmml Ctrmml.VgmSpec
 
@@ -319,11 +321,170 @@ theorem C08_gd3_renders_tag (t : Bytes) (h : validUtf8 (cstr t) = true) :
 
 example : validUtf8 (cstr exTags.system) = true := by decide
 
-/-- Every clause of DESIGN §6 C08 is a theorem above; nothing is left to this statement.  (It
-is kept, trivially true, so that the audit shows the full statement shrank to nothing.)  Not
-theorems, by design: the UTF-16 strings are tied to the tags through the model's decoder
-(`gd3Units`); that the decoder inverts the reader-side encoder `utf8OfUnits`, and the clock and
-PCM clauses for whole songs (MD_Driver), rest on the spec oracle. -/
-def C08_full_statement : Prop := True
+/-! ### Whole songs: `Platform::vgm_export` + `MD_Driver` (Model/MdDriver.lean) -/
+open MdDriver in
+theorem mdPokes_eq : mdPokes = hdrPokes := rfl
+
+/-- invalid_tag_range_error: if some tag does not decode, the export — whatever the operations
+were — ends in `std::range_error` thrown by `write_tag`, and in nothing else: every step up to
+and including `stop` succeeds (no overflow, no fault), `write_tag` is what fails. -/
+theorem C08_invalid_tag_range_error (version H : Nat) (pokes : List (Nat × Bytes)) (xs : List XOp) (tags : Tags)
+    (h38 : 0x38 ≤ H) (hA : H ≤ initialAlloc) (hpokes : ∀ p ∈ pokes, SafeOff H p.1 p.2.length)
+    (hvalid : ∀ x ∈ xs, x.valid) (hdelays : (xs.map XOp.delayOf).sum < 2147483648)
+    (hbad : ∃ t ∈ tags.toList, ¬ Decodable t) :
+    run version H (exportOps pokes xs tags) = .error .rangeError :=
+  export_bad_tag version H pokes xs tags h38 hA hpokes hvalid hdelays hbad
+
+example : ¬ Decodable [0x41, 0xff] := by
+  intro ⟨us, h⟩
+  have : utf8ToUtf16 (cstr [0x41, 0xff]) = .error .rangeError := rfl
+  rw [this] at h; cases h
+
+open MdDriver in
+/-- md_export_hyps (goal: the operation sequence the real exporter produces satisfies the side
+conditions of the writer-level theorems).  For EVERY instrument data `d` whose wave bank keeps
+its sample windows inside the used rom (`BankOK`; implied by the allocator invariant of C14,
+`bankOK_of_inv`), every song and all tags: if the model of `vgm_export` + `MD_Driver` completes
+(`exportOps … = .ok ops`: no player error, the song ends or loops within the hour), then `ops` is
+an exporter operation sequence `exportOps mdPokes xs tags` where
+ * the pokes are the `MD_Driver` constructor's and declare both clocks (`ClockPoked` 0x0c, 0x2c);
+ * `xs` starts with ONE type-0 data block holding the used part of the wave rom and the DAC
+   stream setup, and contains no other data block;
+ * every stream start of `xs` addresses bytes of that block (`xsPcm 0 xs`);
+ * all side conditions of `ExportHyps` other than "the tags decode" hold — so `ExportHyps` holds
+   exactly when every tag decodes. -/
+theorem C08_md_export_hyps (d : Data) (song : Song) (tags : Tags) (ops : List Op) (hb : BankOK d)
+    (h : MdDriver.exportOps d song tags = .ok ops) :
+    ∃ xs rest, ops = exportOps mdPokes xs tags ∧
+      xs = XOp.datablock 0 (pcmBlock d) d.bank.rom.length 0 :: XOp.dacSetup 0 2 0 0x2a 0 :: rest ∧
+      (∀ x ∈ rest, ∀ t p m o, x ≠ XOp.datablock t p m o) ∧
+      ClockPoked mdPokes 0x0c ∧ ClockPoked mdPokes 0x2c ∧ xsPcm 0 xs = true ∧
+      ((∀ t ∈ tags.toList, Decodable t) → ExportHyps 0x100 mdPokes xs tags) ∧
+      ((∃ t ∈ tags.toList, ¬ Decodable t) → run 0x61 0x100 ops = .error .rangeError) := by
+  obtain ⟨rest, hops, hv, hd, hp, hnb⟩ := exportOps_x d song tags ops hb h
+  have hvalid : ∀ x ∈ XOp.datablock 0 (pcmBlock d) d.bank.rom.length 0 :: XOp.dacSetup 0 2 0 0x2a 0 :: rest, x.valid := by
+    intro x hx
+    rcases List.mem_cons.mp hx with rfl | hx
+    · refine ⟨by decide, ?_⟩
+      have := hb.small
+      rw [pcmBlock_length]
+      unfold used; omega
+    · rcases List.mem_cons.mp hx with rfl | hx
+      · trivial
+      · exact hv x hx
+  have hdel : ((XOp.datablock 0 (pcmBlock d) d.bank.rom.length 0 :: XOp.dacSetup 0 2 0 0x2a 0 :: rest).map XOp.delayOf).sum < 2147483648 := by
+    simpa [XOp.delayOf] using hd
+  have hpk : ∀ p ∈ mdPokes, SafeOff 0x100 p.1 p.2.length := by
+    simp [mdPokes, Tables.md_vgm_pokes, SafeOff, le16]
+  refine ⟨_, rest, hops, rfl, hnb, ⟨[(0x2c, le32 7670454)], 3579575, _, rfl, by decide, by simp [le16]⟩,
+    ⟨[], 7670454, _, rfl, by decide, by simp [le16]⟩, ?_, ?_, ?_⟩
+  · simp only [xsPcm, if_true, Nat.zero_add, pcmBlock_length]; exact hp
+  · intro htags
+    exact { h38 := by decide, hA := by decide, pokes := hpk, valid := hvalid, delays := hdel, tags := htags }
+  · intro hbad
+    rw [hops]
+    exact export_bad_tag 0x61 0x100 mdPokes _ tags (by decide) (by decide) hpk hvalid hdel hbad
+
+open MdDriver in
+/-- the side conditions are met by the empty instrument data (fresh wave bank) -/
+example : BankOK ({ ins := [] } : Data) :=
+  bankOK_of_inv _ [] (Wave.inv_new Tables.mds_dataWaveRom 0 (by decide) (by decide) (by decide))
+
+/-- the eleven GD3 strings render the eleven tags -/
+def TagsRendered (strs : List (List Nat)) (tags : Tags) : Prop :=
+  strs.length = 11 ∧ ∀ (i : Nat) (s : List Nat) (t : Bytes), strs[i]? = some s → tags.toList[i]? = some t →
+    validUtf8 (cstr t) = true → rendersTag gd3MaxUnits s (cstr t) = true
+
+open MdDriver in
+/-- **C08, the full statement over the model, for every song.**  Let `d` be instrument data
+whose wave bank satisfies the allocator invariant (`Wave.Inv`: C14 proves it for every bank
+built from a new bank by admissible additions), `song` any song, `m` its tag map, `st` the wall
+clock / build stamp strings; `tags = finalTags m st` are the eleven strings `get_tags` +
+`write_tag` produce.  Then for `exportSong d song m st` (= `Platform::get_export_data(song, 0)`):
+ 1. if the player/driver part fails (player error, unsupported event, song longer than an hour:
+    `exportOps … = .error e`) that error is the outcome;
+ 2. if it completes (`exportOps … = .ok`), the outcome is decided by the tags alone — a file if
+    every tag decodes, `InputError` if some tag is not decodable UTF-8 — and never a fault of
+    the writer (heap overflow, indeterminate byte, delay overflow, poke outside the buffer);
+ 3. every file it returns (shorter than 4 GiB, the range of the 32-bit offset fields) is
+    `WellFormed`: magic, EOF offset, data offset 0x100, the stream parses as defined commands up
+    to the end marker, header total = sum of the waits, loop offset on a command boundary with
+    loop samples = waits from there to the end (or both zero), GD3 offset exact, the clocks of
+    SN76489 and YM2612 — the only chips written to — declared, every PCM stream start inside the
+    data block, and the GD3 block splits into exactly eleven terminated strings: the decoded
+    tags cut at 256 units, each of which renders its tag (`rendersTag`: re-encoded to UTF-8 it IS
+    the tag, or a 256-unit prefix of it) whenever the tag is well-formed UTF-8. -/
+theorem C08_full (d : Data) (song : Song) (m : TagMap) (st : Stamps) (rs : List Alloc.Win)
+    (hbank : Wave.Inv d.bank rs) :
+    (∀ e, MdDriver.exportOps d song (finalTags m st) = .error e → exportSong d song m st = .error e) ∧
+    (∀ ops, MdDriver.exportOps d song (finalTags m st) = .ok ops →
+      ((∀ t ∈ (finalTags m st).toList, Decodable t) → ∃ f, exportSong d song m st = .ok f) ∧
+      ((∃ t ∈ (finalTags m st).toList, ¬ Decodable t) → exportSong d song m st = .error .input)) ∧
+    (∀ f, exportSong d song m st = .ok f → f.length < 4294967296 →
+      dataStart f = 0x100 ∧ WellFormed f ((finalTags m st).toList.map gd3Units) ∧
+      TagsRendered ((finalTags m st).toList.map gd3Units) (finalTags m st)) := by
+  have hb := bankOK_of_inv d rs hbank
+  unfold exportSong
+  generalize finalTags m st = tags
+  -- the outcome of the export in terms of the operation list
+  have key : ∀ ops, MdDriver.exportOps d song tags = .ok ops →
+      ((∀ t ∈ tags.toList, Decodable t) → ∃ xs f, ops = exportOps mdPokes xs tags ∧ ExportHyps 0x100 mdPokes xs tags ∧
+          xsPcm 0 xs = true ∧ run 0x61 0x100 ops = .ok f ∧ exportVgm d song tags = .ok f) ∧
+      ((∃ t ∈ tags.toList, ¬ Decodable t) → exportVgm d song tags = .error .input) := by
+    intro ops hops
+    obtain ⟨xs, rest, e1, _, _, _, _, hpcm, hy, hbad⟩ := C08_md_export_hyps d song tags ops hb hops
+    constructor
+    · intro ht
+      obtain ⟨f, hf⟩ := C08_no_indeterminate_byte 0x61 (hy ht)
+      refine ⟨xs, f, e1, hy ht, hpcm, by rw [e1]; exact hf, ?_⟩
+      unfold exportVgm
+      rw [hops]
+      simp only
+      have : run Tables.vgm_export_version Tables.vgm_export_header_size ops = .ok f := by rw [e1]; exact hf
+      rw [this]
+    · intro hb'
+      unfold exportVgm
+      rw [hops]
+      simp only
+      have : run Tables.vgm_export_version Tables.vgm_export_header_size ops = .error .rangeError := hbad hb'
+      rw [this]
+  have dec_or : (∀ t ∈ tags.toList, Decodable t) ∨ (∃ t ∈ tags.toList, ¬ Decodable t) := by
+    rcases Classical.em (∀ t ∈ tags.toList, Decodable t) with h | h
+    · exact Or.inl h
+    · right
+      exact Classical.byContradiction fun hn => h fun t ht => Classical.byContradiction fun hd => hn ⟨t, ht, hd⟩
+  refine ⟨?_, ?_, ?_⟩
+  · intro e he
+    unfold exportVgm
+    rw [he]
+  · intro ops hops
+    obtain ⟨k1, k2⟩ := key ops hops
+    exact ⟨fun h => by obtain ⟨_, f, _, _, _, _, hf⟩ := k1 h; exact ⟨f, hf⟩, k2⟩
+  · intro f hf hl
+    cases hops : MdDriver.exportOps d song tags with
+    | error e' => unfold exportVgm at hf; rw [hops] at hf; cases hf
+    | ok ops =>
+      obtain ⟨k1, k2⟩ := key ops hops
+      rcases dec_or with h | h
+      · obtain ⟨xs, f', e1, hy, hpcm, hrun, hf'⟩ := k1 h
+        rw [hf'] at hf
+        cases hf
+        rw [e1] at hrun
+        have s1 := C08_eof_offset hy hrun hl
+        have s2 := C08_stream_parses hy hrun
+        have s3 := C08_sample_total_header hy hrun
+        have s4 := C08_gd3_offset hy hrun hl
+        have s5 := C08_loop_consistent hy hrun hl
+        have s6 := C08_gd3_eleven_strings hy
+        have s7 := C08_clocks_declared hy hrun ⟨[(0x2c, le32 7670454)], 3579575, _, rfl, by decide, by simp [le16]⟩
+          ⟨[], 7670454, _, rfl, by decide, by simp [le16]⟩
+        have s8 := C08_pcm_stream_in_block hy hrun hpcm
+        refine ⟨s2.1, ⟨s1.1, s1.2, expected 0 xs, gd3Tail tags, s2.2, s3.1, s5.1, s4, s7, s8.2, s6.1⟩, s6.2, ?_⟩
+        intro i s t hs ht hv
+        rw [List.getElem?_map, ht] at hs
+        simp only [Option.map_some, Option.some.injEq] at hs
+        subst hs
+        exact (C08_gd3_renders_tag t hv).2
+      · rw [k2 h] at hf; cases hf
 
 end Ctrmml.Vgm
